@@ -68,5 +68,10 @@ def run(ctx):
         ctx.floor(rs, 60)
 
 
+    if ctx.want("R5"):
+        rs = ctx.rule("R5", "real managers: the sort and bit-width reported for a term of a second environment are the same whether or not the first environment built terms with the same node ids before")
+        from . import mgr_deep
+        mgr_deep.report(ctx, rs, mgr_deep.xenv_results(), "pysmt/fnode.py", 5)
+
     from . import c03_deep
     c03_deep.run(ctx)
